@@ -27,6 +27,7 @@ from .kernel import HarnessError, Violation
 
 BAND = 30.0
 TOL = 1e-7
+TOL32 = 5e-4  # single precision: sums of up to 4096 terms, each good to ~1e-7 relative
 MAX_BRUTE = 4096
 
 
@@ -122,7 +123,8 @@ def install(w: Any) -> None:
         route, lz = res
         w.tr.count(f"c12:mass:{route}")
         lz = lz.real if lz.is_complex() else lz
-        if not bool(torch.isfinite(lz).all()) or float(lz.abs().max()) > TOL:
+        tol = TOL32 if w.plan["config"].get("dtype") == "float32" else TOL
+        if not bool(torch.isfinite(lz).all()) or float(lz.abs().max()) > tol:
             raise Violation(
                 "M1",
                 f"{c.name} ({_name(c)}; fold={w.fold} optimize={w.optimize} {w.semiring}) has "
